@@ -1,21 +1,28 @@
 import TracklibVerif.Lemmas.Filter
+import TracklibVerif.Lemmas.FilterNp
 import Mathlib.Algebra.Order.Ring.Rat
 import Mathlib.Algebra.Field.Rat
 import Mathlib.Tactic.NormNum
 /-! # C15 — kernel smoothing is a renormalised local weighted mean
 
-Property theorems only (helpers are in `Lemmas/Filter.lean`, the model in `Model/Filter.lean`).
-Scalars: any linearly ordered field (`ℚ`, `ℝ`); NaN is `none`. Vocabulary (defined in
-`Lemmas/Filter.lean`):
+Property theorems only (helpers are in `Lemmas/Filter.lean` and `Lemmas/FilterNp.lean`, the model in
+`Model/Filter.lean`). Scalars: any linearly ordered field (`ℚ`, `ℝ`); NaN is `none`. Vocabulary (defined
+in `Lemmas/Filter.lean`):
 
 * `window v k D i` — the pairs `(k[j], v[i - j + D])` over the kernel positions `j` whose sample index
   `i - j + D` is inside the signal and whose sample is not NaN (characterised by `window_spec`);
 * `wtot W = Σ weight`, `wsum W = Σ weight · value`, `wmean W = wsum W / wtot W`;
 * `filterWindow v k boundary` — `Filter.execute` once the kernel has been turned into the window `k`
-  (`boundary = kernel.filterBoundary()`, `false` for a weight list); `execute` — the whole method.
+  (`boundary = kernel.filterBoundary()`, `false` for a weight list); `execute` — the whole method on the
+  values of the input feature; `operate` — `track.operate(Operator.FILTER, af_in, kernel, af_out)` on a
+  track of named signals (kernel possibly a feature name); `filterSeq` / `filterSeqCall` / `smooth` /
+  `session` — `filter_seq` on a list of names / with its `dim` argument and the module-level state /
+  `Track.smooth` / several calls in one process.
 
 Domain (`InDomain`): odd window, non-negative weights, every collected norm positive, and a signal
-at least as long as the half window when the boundary values are copied. -/
+at least as long as the half window when the boundary values are copied. Outside it (a zero norm) the
+theorems say what happens instead: `zero_norm_fails`, `list_zero_weights`, `list_no_sample_fails`,
+`window_zero_sum_fails`. -/
 set_option linter.unusedSectionVars false
 namespace TV.C15
 open TV.Filter
@@ -232,7 +239,7 @@ theorem window_shape (f : α → α) (support : α) (S : Nat) (hs : ¬ support <
     (heven : ∀ y, f (-y) = f y) (hsum : (rawWindow f support S).sum ≠ 0) :
     ∃ w, slidingWindow f support S = .ok w ∧ w.length = 2 * S + 1 ∧ w.length % 2 = 1 ∧
       (∀ i, i ≤ 2 * S → w[2 * S - i]? = w[i]?) ∧ w.sum = 1 := by
-  refine ⟨_, slidingWindow_eq f support S hs, ?_, ?_, ?_, ?_⟩
+  refine ⟨_, slidingWindow_eq f support S hs hsum, ?_, ?_, ?_, ?_⟩
   · rw [List.length_map, rawWindow_length]
   · rw [List.length_map, rawWindow_length]; omega
   · intro i hi
@@ -247,7 +254,7 @@ theorem window_nonneg (f : α → α) (support : α) (S : Nat) (hs : ¬ support 
     0 < (rawWindow f support S).sum ∧
     ∃ w, slidingWindow f support S = .ok w ∧ (∀ x ∈ w, 0 ≤ x) ∧ ∃ c, w[w.length / 2]? = some c ∧ 0 < c := by
   have hpos := rawWindow_sum_pos f support S hs hf hc
-  refine ⟨hpos, _, slidingWindow_eq f support S hs, ?_, ?_⟩
+  refine ⟨hpos, _, slidingWindow_eq f support S hs (ne_of_gt hpos), ?_, ?_⟩
   · intro x hx
     rw [List.mem_map] at hx
     obtain ⟨y, hy, rfl⟩ := hx
@@ -272,21 +279,22 @@ theorem builtin_kernels (size : α) (hsize : 0 < size) :
 
 /-! ## `filter_seq` and `Track.smooth` -/
 
-/-- **`filter_seq`** For a weight list (not of length one), a Kernel object or the Dirac kernel, and
-distinct dimensions none of which is the scratch feature `temp`, every one of which is a signal of
-the track in the domain: `filter_seq` succeeds; each listed coordinate / feature is replaced by the
+/-- **`filter_seq`** For a weight list (not of length one), a Kernel object or the Dirac kernel, on a
+track with at least one observation, and distinct dimensions none of which is the scratch feature
+`temp` or one of the virtual features `t`, `timestamp`, `idx`, every one of which is a signal of the
+track in the domain: `filter_seq` succeeds; each listed coordinate / feature is replaced by the
 signal of renormalised weighted means of its own former values (the same window for all of them —
 the in-place normalisation of the list at the first dimension does not change the result for the
-following ones); every other signal except `temp` is untouched. `Track.smooth(width)` is the case
-`kern = GaussianKernel(width)`, `dims = [x, y, z]`. -/
+following ones); every other signal except `temp` is untouched. -/
 theorem filterSeq_is_mean (t : Sigs α) (kern : KArg α) (w : List α) (b : Bool) (dims : List String)
     (hp : Prepared kern w b) (hone : ∀ a, kern ≠ .list [a])
     (hnd : dims.Nodup) (htemp : "temp" ∉ dims)
+    (hres : ∀ d ∈ dims, d ≠ "t" ∧ d ≠ "timestamp" ∧ d ≠ "idx") (hsize : trackSize t ≠ 0)
     (hall : ∀ d ∈ dims, ∃ v, getSig t d = some v ∧ InDomain v w b) :
     ∃ t', filterSeq t (.k kern) dims = .ok t' ∧
       (∀ d ∈ dims, ∃ v, getSig t d = some v ∧ getSig t' d = some (meanSignal v w b)) ∧
       (∀ nm, nm ∉ dims → nm ≠ "temp" → getSig t' nm = getSig t nm) := by
-  have hfs : filterSeq t (.k kern) dims = seqLoop dims kern t := by
+  have hfs : filterSeq t (.k kern) dims = seqLoop dims (.arg kern) t := by
     unfold filterSeq
     cases kern with
     | obj _ _ _ _ _ => rfl
@@ -298,6 +306,8 @@ theorem filterSeq_is_mean (t : Sigs α) (kern : KArg α) (w : List α) (b : Bool
   rw [hfs]
   have hden : ∀ v, InDomain v w b → ∀ i, i < v.length → wtot (window v w (w.length / 2) i) ≠ 0 :=
     fun v h i hi => ne_of_gt (h.norm_pos i hi)
+  have hF : ∀ (w : List α) (b : Bool) (v : List (Option α)), (meanSignal v w b).length = v.length := by
+    intro w b v; simp [meanSignal]
   cases kern with
   | list k =>
     obtain ⟨rfl, rfl, hs⟩ := hp
@@ -309,19 +319,19 @@ theorem filterSeq_is_mean (t : Sigs α) (kern : KArg α) (w : List α) (b : Bool
     | nil => exact ⟨t, by rw [seqLoop], by simp, fun _ _ _ => rfl⟩
     | cons af rest =>
       obtain ⟨v, hv, hin⟩ := hall af List.mem_cons_self
-      rw [seqLoop_list_first w af rest t v hv hin.odd (hden v hin) (hin.long rfl) hs]
-      exact seqLoop_stable _ _ _ t hnd htemp hstable
+      rw [seqLoop_list_first w af rest t v hv hin.odd (hden v hin) (hin.long rfl) hs hsize (hres af List.mem_cons_self)]
+      exact seqLoop_stable _ _ (hF w false) _ t hnd htemp hres hsize hstable
   | obj dirac fb f support S =>
     cases dirac with
     | true =>
       obtain ⟨rfl, rfl⟩ := hp
-      apply seqLoop_stable _ (fun v => meanSignal v [0, 1, 0] b) _ t hnd htemp
+      apply seqLoop_stable _ (fun v => meanSignal v [0, 1, 0] b) (hF _ b) _ t hnd htemp hres hsize
       intro d hd
       obtain ⟨v, hv, hin⟩ := hall d hd
       exact ⟨v, hv, stable_dirac v b f support S (filterWindow_eq v _ b hin.odd (hden v hin) hin.long)⟩
     | false =>
       obtain ⟨hw, rfl⟩ := hp
-      apply seqLoop_stable _ (fun v => meanSignal v w b) _ t hnd htemp
+      apply seqLoop_stable _ (fun v => meanSignal v w b) (hF w b) _ t hnd htemp hres hsize
       intro d hd
       obtain ⟨v, hv, hin⟩ := hall d hd
       exact ⟨v, hv, stable_obj v b f support S w hw (filterWindow_eq v _ b hin.odd (hden v hin) hin.long)⟩
@@ -358,6 +368,264 @@ theorem dirac_identity (v : List (Option α)) (b : Bool) (hlen : b = false → 1
       rw [h.1, h.2, div_one]
   · rw [List.getElem?_eq_none (by simp [meanSignal]; omega), List.getElem?_eq_none (by omega)]
 
+/-! ## Sliding windows of arbitrary (user-defined) kernels -/
+
+/-- the third sentence of the property for a window `w` sampled with `S = int(support)`: odd length,
+symmetric, sums to 1 — and non-negative weights, which makes it a legitimate kernel of T1–T4 -/
+structure GoodWindow (w : List α) (S : Nat) : Prop where
+  length : w.length = 2 * S + 1
+  odd : w.length % 2 = 1
+  symm : ∀ i, i ≤ 2 * S → w[2 * S - i]? = w[i]?
+  sum_one : w.sum = 1
+  nonneg : ∀ x ∈ w, 0 ≤ x
+
+/-- **T5 for any kernel object** (built-in or `Kernel` + `setFunction`): support at least 1 with
+`S = int(support) ≤ support`, an even kernel function, non-negative at the sample points
+`S, …, −S` and positive at one of them (not necessarily the centre, and whatever its values at the
+edge of the support — 0 included): `toSlidingWindow` succeeds and the window is odd, symmetric,
+sums to 1 and has non-negative weights. -/
+theorem window_of_nonneg_kernel (f : α → α) (support : α) (S : Nat) (hs : ¬ support < 1) (hS : (S : α) ≤ support)
+    (heven : ∀ y, f (-y) = f y) (hf : ∀ i : Nat, i ≤ 2 * S → 0 ≤ f ((S : α) - (i : α)))
+    (i0 : Nat) (hi0 : i0 ≤ 2 * S) (hpos : 0 < f ((S : α) - (i0 : α))) :
+    ∃ w, slidingWindow f support S = .ok w ∧ GoodWindow w S := by
+  have hsum := rawWindow_sum_pos_any f support S hS hf i0 hi0 hpos
+  obtain ⟨w, hw, h1, h2, h3, h4⟩ := window_shape f support S hs heven (ne_of_gt hsum)
+  refine ⟨w, hw, h1, h2, h3, h4, ?_⟩
+  rw [slidingWindow_eq f support S hs (ne_of_gt hsum)] at hw
+  cases hw
+  intro x hx
+  rw [List.mem_map] at hx
+  obtain ⟨y, hy, rfl⟩ := hx
+  exact div_nonneg (rawWindow_nonneg f support S hf y hy) (le_of_lt hsum)
+
+/-- **T5 when the sampled values sum to 0** (e.g. a kernel function that is 0 at every sample point):
+`values[i] /= norm` divides by zero — `toSlidingWindow` fails, it never returns a window of NaN. -/
+theorem window_zero_sum_fails (f : α → α) (support : α) (S : Nat) (hs : ¬ support < 1)
+    (hsum : (rawWindow f support S).sum = 0) : slidingWindow f support S = .error .zeroDiv :=
+  slidingWindow_zero_sum f support S hs hsum
+
+/-- **User-defined kernel** `Kernel(…)` + `setFunction(f)` with `f(x) = tbl[|x|]` at the integers
+`|x| < len(tbl)` and 0 elsewhere (the values may be Python ints, floats or numpy scalars: `evaluate`
+turns each sample into a float): non-negative values, one of them positive at an index `j ≤ S`:
+the sliding window is odd, symmetric, sums to 1 and is non-negative. -/
+theorem user_kernel_window (tbl : List α) (support : α) (S : Nat) (hs : ¬ support < 1) (hS : (S : α) ≤ support)
+    (hnn : ∀ y ∈ tbl, 0 ≤ y) (j : Nat) (hj : j ≤ S) (y : α) (hy : tbl[j]? = some y) (hpos : 0 < y) :
+    ∃ w, slidingWindow (tableF tbl) support S = .ok w ∧ GoodWindow w S := by
+  apply window_of_nonneg_kernel (tableF tbl) support S hs hS (tableF_even tbl)
+    (fun i _ => tableF_nonneg tbl _ hnn) (S - j) (by omega)
+  have e : ((S : α) - ((S - j : Nat) : α)) = (j : α) := by rw [Nat.cast_sub hj]; ring
+  rw [e, tableF_nat, hy]
+  exact hpos
+
+/-- … and a table whose values at the indices `0..S` are all 0 makes `toSlidingWindow` fail. -/
+theorem user_kernel_zero_fails (tbl : List α) (support : α) (S : Nat) (hs : ¬ support < 1)
+    (hz : ∀ j, j ≤ S → (tbl[j]?).getD 0 = 0) :
+    slidingWindow (tableF tbl) support S = .error .zeroDiv := by
+  apply window_zero_sum_fails _ _ _ hs
+  apply List.sum_eq_zero
+  intro x hx
+  unfold rawWindow at hx
+  rw [List.mem_map] at hx
+  obtain ⟨i, hi, rfl⟩ := hx
+  have hi := List.mem_range.mp hi
+  have h0 : tableF tbl ((S : α) - (i : α)) = 0 := by
+    rcases Nat.le_total i S with h | h
+    · have e : ((S : α) - (i : α)) = ((S - i : Nat) : α) := by rw [Nat.cast_sub h]
+      rw [e, tableF_nat]; exact hz _ (by omega)
+    · have e : ((S : α) - (i : α)) = -((i - S : Nat) : α) := by rw [Nat.cast_sub h]; ring
+      rw [e, tableF_even, tableF_nat]; exact hz _ (by omega)
+  unfold evaluate
+  rw [h0, zero_mul]
+
+/-- **Every built-in kernel whose function is written out in `kernel.py`**, any positive size with a
+support of at least 1 (the boundary sizes included: `UniformKernel(0.5)`, `TriangularKernel(2/3)`, …):
+the sliding window is odd, symmetric, sums to 1 and is non-negative. -/
+theorem builtin_kernel_windows (size : α) (hsize : 0 < size) (S : Nat) :
+    (¬ uniformSupport size < 1 → ∃ w, slidingWindow (uniformF size) (uniformSupport size) S = .ok w ∧ GoodWindow w S) ∧
+    (¬ triangularSupport size < 1 → ∃ w, slidingWindow (triangularF size) (triangularSupport size) S = .ok w ∧ GoodWindow w S) ∧
+    (¬ epanechnikovSupport size < 1 → ∃ w, slidingWindow (epanechnikovF size) (epanechnikovSupport size) S = .ok w ∧ GoodWindow w S) := by
+  obtain ⟨u1, u2, u3, t1, t2, t3, e1, e2, e3⟩ := builtin_kernels size hsize
+  have key : ∀ (f : α → α) (support : α), (∀ y, f (-y) = f y) → (∀ x, 0 ≤ f x) → 0 < f 0 → ¬ support < 1 →
+      ∃ w, slidingWindow f support S = .ok w ∧ GoodWindow w S := by
+    intro f support heven hnn hc hs
+    obtain ⟨hsum, w, hw, hn, _⟩ := window_nonneg f support S hs (fun i _ => hnn _) hc
+    obtain ⟨w', hw', h1, h2, h3, h4⟩ := window_shape f support S hs heven (ne_of_gt hsum)
+    rw [hw] at hw'
+    cases hw'
+    exact ⟨w, hw, h1, h2, h3, h4, hn⟩
+  exact ⟨key _ _ u1 u2 u3, key _ _ t1 t2 t3, key _ _ e1 e2 e3⟩
+
+/-! ## Weight lists containing zero weights -/
+
+/-- **Zero-weight lists: what the property demands and what the method does.** An odd list of
+non-negative weights whose sum is not 0, on a signal at least as long as the half window, every window
+holding at least one valid sample. The call succeeds, the list is left normalised, the boundary values
+are copied, and at a filtered index `i`:
+* if the valid weights of the window have a positive sum, the output is the renormalised weighted mean;
+* if they sum to 0 — then every weight of the window is 0, so no weighted mean exists (any `m` satisfies
+  `m·Σw = Σw·x`) — the output is NaN (`np.float64(0.0)/np.float64(0.0)`), never a number. -/
+theorem list_zero_weights (v : List (Option α)) (k : List α) (hodd : k.length % 2 = 1)
+    (hnn : ∀ w ∈ k, 0 ≤ w) (hs : k.sum ≠ 0) (hlen : k.length / 2 ≤ v.length)
+    (hsample : ∀ i, i < v.length → window v k (k.length / 2) i ≠ []) :
+    ∃ out, execute v (.list k) = .ok (some (k.map (· / k.sum)), out) ∧ out.length = v.length ∧
+      ∀ i, i < v.length →
+        ((i < k.length / 2 ∨ v.length - k.length / 2 ≤ i) → out[i]? = v[i]?) ∧
+        (Filtered v k false i → 0 < wtot (window v k (k.length / 2) i) →
+          out[i]? = some (some (wmean (window v k (k.length / 2) i)))) ∧
+        (Filtered v k false i → wtot (window v k (k.length / 2) i) = 0 →
+          out[i]? = some none ∧ ∀ p ∈ window v k (k.length / 2) i, p.1 = 0) := by
+  refine ⟨partialSignal v k, ?_, partialSignal_length v k, ?_⟩
+  · rw [execute_list_partial v k hodd hsample hlen hs, normalise_eq]
+  · intro i hi
+    have hnc : Filtered v k false i → ¬ (i < k.length / 2 ∨ v.length - k.length / 2 ≤ i) := by
+      intro hf
+      rcases hf with hf | hf
+      · exact absurd hf Bool.false_ne_true
+      · omega
+    refine ⟨?_, ?_, ?_⟩
+    · intro hb
+      rw [partialSignal_get v k i hi, if_pos hb]
+      rcases hx : v[i]? with _ | x
+      · rw [List.getElem?_eq_none_iff] at hx; omega
+      · rfl
+    · intro hf hpos
+      rw [partialSignal_get v k i hi, if_neg (hnc hf), if_neg (ne_of_gt hpos)]
+    · intro hf h0
+      refine ⟨?_, weights_zero_of_wtot_zero _ (fun p hp => hnn _ (window_weight_mem hp)) h0⟩
+      rw [partialSignal_get v k i hi, if_neg (hnc hf), if_pos h0]
+
+/-- … and when some window holds no valid sample at all (`temp[i]` and `norm` are still the ints 0) the
+call fails with a division by zero, as it does for a Kernel object on any zero norm (`zero_norm_fails`). -/
+theorem list_no_sample_fails (v : List (Option α)) (k : List α) (hodd : k.length % 2 = 1)
+    (i : Nat) (hi : i < v.length) (hempty : window v k (k.length / 2) i = []) :
+    execute v (.list k) = .error .zeroDiv :=
+  execute_list_fails v k hodd i hi hempty
+
+/-! ## `Track.operate(Operator.FILTER, …)`: feature-name kernels, output feature, failures -/
+
+/-- **T1 for `track.operate(Operator.FILTER, af_in, kernel, af_out)`** on a track with at least one
+observation, an output name that is not reserved, an existing input feature in the domain: the call
+succeeds, returns the signal of renormalised weighted means, stores it under `af_out` (created if
+needed) and touches no other feature or coordinate. -/
+theorem operate_is_mean (t : Sigs α) (afIn afOut : String) (kern : KArg α) (w : List α) (b : Bool)
+    (hp : Prepared kern w b) (v : List (Option α)) (hres : reservedName afOut = false) (hsize : trackSize t ≠ 0)
+    (hv : getSig t afIn = some v) (hin : InDomain v w b) :
+    ∃ k' t', operate t afIn (.arg kern) afOut = .ok (.arg (nextKernel kern k'), meanSignal v w b, t') ∧
+      getSig t' afOut = some (meanSignal v w b) ∧ ∀ nm, nm ≠ afOut → getSig t' nm = getSig t nm := by
+  obtain ⟨_, k', hex, _⟩ := execute_is_mean v kern w b hp hin
+  have hv' : getSig (createAF t afOut) afIn = some v := by
+    by_cases h : afIn = afOut
+    · subst h; rw [createAF_of_getSig t afIn v hv]; exact hv
+    · rw [getSig_createAF_other _ _ _ h]; exact hv
+  exact ⟨k', _, operate_arg_eq t afIn afOut kern v k' _ hres hsize hv' hex, getSig_setSig_same _ _ _,
+    fun nm hne => getSig_setSig_other _ _ _ _ hne⟩
+
+/-- **A kernel given as the name of a feature** (or coordinate) whose values contain no NaN is the list
+of these values: same output, same track; the name itself is of course unchanged (the weights are
+a fresh list, normalised without touching the feature). With as many weights as observations the call
+is in the domain of T1 when that number is odd. -/
+theorem feature_kernel_is_list (t : Sigs α) (afIn afOut name : String) (ws : List (Option α))
+    (hk : getSig t name = some ws) (hnan : ws.any (·.isNone) = false) :
+    operate t afIn (.feat name) afOut =
+      match operate t afIn (.arg (.list (ws.filterMap id))) afOut with
+      | .ok (_, out, t') => .ok (.feat name, out, t')
+      | .error e => .error e := by
+  unfold operate resolve
+  simp only [hk, hnan, Bool.false_eq_true, if_false]
+  rcases prepare (KArg.list (ws.filterMap id)) with e | ⟨k0, w, b, np⟩
+  · rfl
+  · simp only
+    split_ifs
+    · rfl
+    · rfl
+    · rfl
+    · rcases getSig (createAF t afOut) afIn with _ | v
+      · rfl
+      · simp only
+        rcases filterWindowG v w b np with e | out
+        · rfl
+        · rfl
+
+/-- **Failures before the filtering loops**, in the order of the Python: a reserved output name
+(`x`, `y`, `z`, `t`, `timestamp`, `idx`) and then a track without observation are refused by
+`createAnalyticalFeature` — after the kernel has been prepared and found odd. -/
+theorem operate_refusals (t : Sigs α) (afIn afOut : String) (k : List α) (hodd : k.length % 2 = 1) :
+    (reservedName afOut = true → operate t afIn (.arg (.list k)) afOut = .error .feature) ∧
+    (reservedName afOut = false → trackSize t = 0 → operate t afIn (.arg (.list k)) afOut = .error .emptyTrack) := by
+  have h1 : (k.length % 2 == 0) = false := by simp [hodd]
+  constructor
+  · intro hr
+    unfold operate resolve prepare
+    simp [normalise_length, h1, hr]
+  · intro hr h0
+    unfold operate resolve prepare
+    simp [normalise_length, h1, hr, h0]
+
+/-! ## The `dim` argument, module-level state, sessions, `Track.smooth` -/
+
+/-- **Dispatch on `dim`**: omitted, it is `FILTER_XYZ` = x, y, z; a module constant `FILTER_…` stands for
+the coordinates its name says; a list is taken as it is; a single `str` is walked character by
+character (`"xy"` filters x and y; a feature name of several characters is *not* one dimension).
+No call changes the module-level state. -/
+theorem dim_dispatch (g : Globals) (t : Sigs α) (kernel : SeqArg α) :
+    filterSeqCall Globals.initial t kernel .default = some (filterSeq t kernel ["x", "y", "z"], Globals.initial) ∧
+    (∀ n l, (n, l) ∈ Globals.initial.filterConsts →
+      filterSeqCall Globals.initial t kernel (.const n) = some (filterSeq t kernel l, Globals.initial)) ∧
+    (∀ l, filterSeqCall g t kernel (.list l) = some (filterSeq t kernel l, g)) ∧
+    (∀ s, filterSeqCall g t kernel (.str s) = some (filterSeq t kernel (s.toList.map String.singleton), g)) ∧
+    ((Globals.initial.filterConsts.map (·.2)) =
+      [["x"], ["y"], ["z"], ["x", "y"], ["x", "z"], ["y", "z"], ["x", "y", "z"]]) := by
+  refine ⟨rfl, ?_, fun _ => rfl, fun _ => rfl, rfl⟩
+  intro n l h
+  simp only [Globals.initial, List.mem_cons, Prod.mk.injEq, List.not_mem_nil, or_false] at h
+  rcases h with ⟨rfl, rfl⟩ | ⟨rfl, rfl⟩ | ⟨rfl, rfl⟩ | ⟨rfl, rfl⟩ | ⟨rfl, rfl⟩ | ⟨rfl, rfl⟩ | ⟨rfl, rfl⟩ <;> rfl
+
+/-- **Sessions**: calls made one after the other in one process (each on its own track, default or
+explicit `dim`, any kernel, in or out of the domain, failing or not) give what each call gives alone
+in a fresh process, and leave the module-level state (`FILTER_X … FILTER_XYZ`, the class attribute
+`Kernel.__filter_boundary`) as it was. -/
+theorem session_independent (g : Globals) (cs : List (Call α)) (h : ∀ c ∈ cs, (dimNames g c.dim).isSome) :
+    session g cs = cs.map (fun c => filterSeqCall g c.t c.kernel c.dim) ∧
+    ∀ r ∈ session g cs, ∃ x, r = some (x, g) := by
+  induction cs with
+  | nil => exact ⟨rfl, by simp [session]⟩
+  | cons c cs ih =>
+    obtain ⟨ih1, ih2⟩ := ih (fun c' hc' => h c' (List.mem_cons_of_mem _ hc'))
+    have hc := h c List.mem_cons_self
+    obtain ⟨names, hn⟩ := Option.isSome_iff_exists.mp hc
+    have e : filterSeqCall g c.t c.kernel c.dim = some (filterSeq c.t c.kernel names, g) := by
+      unfold filterSeqCall; rw [hn]
+    constructor
+    · rw [session, e, List.map_cons, e]
+      simp only
+      rw [ih1]
+    · intro r hr
+      rw [session, e] at hr
+      simp only at hr
+      rcases List.mem_cons.mp hr with rfl | hr
+      · exact ⟨_, rfl⟩
+      · exact ih2 r hr
+
+/-- **`Track.smooth(width)`** is `filter_seq(self, GaussianKernel(width))` with the default `dim`: on a
+track with at least one observation whose x, y, z are in the domain of the Gaussian window `w`
+(boundaries not filtered: `setFilterBoundary` is never called on that kernel), each coordinate becomes
+the signal of renormalised weighted means of its former values, the features are untouched and the
+module-level state is unchanged. -/
+theorem smooth_is_mean (t : Sigs α) (f : α → α) (support : α) (S : Nat) (w : List α)
+    (hw : slidingWindow f support S = .ok w) (hsize : trackSize t ≠ 0)
+    (hall : ∀ d ∈ ["x", "y", "z"], ∃ v, getSig t d = some v ∧ InDomain v w false) :
+    ∃ t', smooth Globals.initial t f support S = some (.ok t', Globals.initial) ∧
+      (∀ d ∈ ["x", "y", "z"], ∃ v, getSig t d = some v ∧ getSig t' d = some (meanSignal v w false)) ∧
+      (∀ nm, nm ∉ ["x", "y", "z"] → nm ≠ "temp" → getSig t' nm = getSig t nm) := by
+  obtain ⟨t', h1, h2, h3⟩ := filterSeq_is_mean t (.obj false false f support S) w false ["x", "y", "z"]
+    ⟨hw, rfl⟩ (fun a h => by cases h) (by decide) (by decide)
+    (by intro d hd; simp only [List.mem_cons, List.not_mem_nil, or_false] at hd; rcases hd with rfl | rfl | rfl <;> decide)
+    hsize hall
+  refine ⟨t', ?_, h2, h3⟩
+  show filterSeqCall Globals.initial t _ .default = _
+  rw [(dim_dispatch Globals.initial t _).1]
+  exact congrArg (fun r => some (r, Globals.initial)) h1
+
 /-! ## The domain is sharp, and it is inhabited -/
 
 /-- outside the domain: an odd window one of whose norms is zero makes the method fail with a
@@ -365,15 +633,18 @@ division by zero (what `Filter.execute` does for a Kernel object; never a wrong 
 theorem zero_norm_fails (v : List (Option α)) (k : List α) (boundary : Bool) (hodd : k.length % 2 = 1)
     (i : Nat) (hi : i < v.length) (h0 : wtot (window v k (k.length / 2) i) = 0) :
     filterWindow v k boundary = .error .zeroDiv := by
-  unfold filterWindow
+  unfold filterWindow filterWindowG
   have h1 : ¬ (k.length % 2 == 0) = true := by simp [hodd]
   simp only [h1]
   rw [cells_eq]
-  have h2 : ((List.range v.length).map (fun i => (wsum (window v k (k.length / 2) i), wtot (window v k (k.length / 2) i)))).any
-      (fun c => c.2 == 0) = true := by
+  have h2 : ((List.range v.length).map (fun i => (wsum (window v k (k.length / 2) i), wtot (window v k (k.length / 2) i)))).zipIdx.any
+      (fun c => c.1.2 == 0 && (!false || !anySample v (k.length / 2) c.2 k 0)) = true := by
     rw [List.any_eq_true]
-    exact ⟨_, List.mem_map.mpr ⟨i, List.mem_range.mpr hi, rfl⟩, by simpa using h0⟩
-  simp [h2]
+    refine ⟨((wsum (window v k (k.length / 2) i), wtot (window v k (k.length / 2) i)), i), ?_, ?_⟩
+    · rw [List.mem_zipIdx_iff_getElem?]
+      simp [hi]
+    · simp [h0]
+  simp only [h2, if_true, Bool.false_eq_true, if_false]
 
 /-- non-vacuity: an asymmetric positive weight list on a signal with an isolated NaN is in the domain … -/
 example : InDomain (α := ℚ) [some 0, none, some 1, some 4] [1, 2, 5] false := by
@@ -394,7 +665,7 @@ weights `[1,2,5]` on `[0, NaN, 1, 4]` gives `[0, 1/6, 2, 4]`: index 1 averages `
 `k[0] = 1` and `v[0]` with weight `k[2] = 5`, the NaN is left out of the norm). -/
 example : filterWindow (α := ℚ) [some 0, none, some 1, some 4] [1, 2, 5] false
     = .ok [some 0, some (1/6), some 2, some 4] := by
-  simp [filterWindow, cells, inner, sample, copyBoundary, List.range, List.range.loop]
+  simp [filterWindow, filterWindowG, cells, inner, sample, copyBoundary, List.range, List.range.loop]
   norm_num
 
 /-- the sliding window of `TriangularKernel(2)` -/
@@ -408,5 +679,20 @@ example : Prepared (α := ℚ) (.obj false true (uniformF 1) (uniformSupport 1) 
   refine ⟨?_, rfl⟩
   simp [slidingWindow, uniformSupport, uniformF, evaluate, samplePoint, absv, ind, List.range, List.range.loop]
   norm_num
+
+/-- a user-defined kernel whose function returns 0 at the edge of its support (`[1/2, 1/4, 0]` at
+`|x| = 0, 1, 2`, support 2.5): the window `[0, 1/4, 1/2, 1/4, 0]` -/
+example : slidingWindow (tableF [(1 : ℚ) / 2, 1 / 4, 0]) (5 / 2) 2 = .ok [0, 1/4, 1/2, 1/4, 0] := by
+  simp [slidingWindow, tableF, tableFrom, evaluate, samplePoint, absv, ind, List.range, List.range.loop]
+  norm_num
+
+/-- the weight list `[0,1,0]` on `[1, NaN, 3]`: the window of index 1 holds two valid samples of weight 0 —
+no weighted mean, the output is NaN; the call does not fail (numpy weights) -/
+example : execute (α := ℚ) [some 1, none, some 3] (.list [0, 1, 0]) = .ok (some [0, 1, 0], [some 1, none, some 3]) := by
+  simp [execute, prepare, normalise, filterWindowG, cells, inner, sample, anySample, copyBoundary, List.range, List.range.loop,
+    List.zipIdx]
+
+/-- `dim="xy"` is walked character by character -/
+example : dimNames Globals.initial (.str "xy") = some ["x", "y"] := by decide
 
 end TV.C15
